@@ -148,8 +148,13 @@ class CTMCUniformGrid(CTMCGrid):
         l, r = compute_truncation(
             model=model, h=h, truncation_probability=truncation_probability
         )
-        nb_of_points_left = int(abs(l) / h)
-        nb_of_points_right = int(r / h)
+        if not (l < -h and h < r):
+            raise ValueError(
+                "h expected strictly below the truncation bounds of the grid (choose a smaller value for h)"
+            )
+        # at least the truncation bound and the neighbour of the origin on each side
+        nb_of_points_left = max(2, int(abs(l) / h))
+        nb_of_points_right = max(2, int(r / h))
         if nb_of_points_left + nb_of_points_right > 1e8:
             raise ValueError(
                 "the number of points is greater than 10M, choose a smaller value for the "
@@ -275,6 +280,10 @@ class CTMCGridGeometric(CTMCGrid):
         l, r = compute_truncation(
             model=model, h=h, truncation_probability=truncation_probability
         )
+        if not (l < -h and h < r):
+            raise ValueError(
+                "h expected strictly below the truncation bounds of the grid (choose a smaller value for h)"
+            )
         axis_right = np.geomspace(start=h, stop=r, num=nb_of_points_on_each_side)
         axis_left = np.geomspace(start=l, stop=-h, num=nb_of_points_on_each_side)
         axis = np.concatenate((axis_left, [0.0], axis_right))
@@ -301,6 +310,10 @@ class CTMCGridGeometric(CTMCGrid):
         if nb_of_points_on_each_side < 2:
             raise ValueError("expected nb_of_points_on_each_side >= 2")
         l, r = truncations
+        if not (l < -h and h < r):
+            raise ValueError(
+                "h expected strictly below the truncation bounds of the grid (choose a smaller value for h)"
+            )
         axis_right = np.geomspace(start=h, stop=r, num=nb_of_points_on_each_side)
         axis_left = np.geomspace(start=l, stop=-h, num=nb_of_points_on_each_side)
         axis = np.concatenate((axis_left, [0.0], axis_right))
@@ -337,6 +350,11 @@ class CTMCCredit(CTMCGrid):
             raise ValueError(
                 "level a expected strictly between the last left point in the grid and -h"
             )
+        if not h < r:
+            # the axis ends with h, r: the right truncation must lie beyond the first step
+            raise ValueError(
+                "h expected strictly below the last right point in the grid"
+            )
 
         if model.dimension_model() == 1:
             eps = min(abs(l - level_a) / 2, abs(level_a + h) / 2)
@@ -348,6 +366,11 @@ class CTMCCredit(CTMCGrid):
                 eps = min(abs(l - a) / 2, abs(a + h) / 2)
                 if symmetric_grid:
                     # symmetric axes -> this is a current limitation in the code with the pairing function in Z^d
+                    if not -a + eps < r:
+                        raise ValueError(
+                            "symmetric grid: the mirrored level -a expected strictly below the last right point "
+                            "in the grid"
+                        )
                     axis_values = [l, a - eps, a + eps, -h, 0, h, -a - eps, -a + eps, r]
                 else:
                     axis_values = [l, a - eps, a + eps, -h, 0, h, r]
